@@ -54,7 +54,7 @@ package agessh
 //@ func (*RSAIdentity).unwrap(i, block) (fk, err)
 //@   requires block != nil && i.sshKey != nil
 //@   call rsa.DecryptOAEP#1 requires arg1 == rand.Reader && arg2 == i.k && same(arg3, block.Body) && bytes(arg4) == OAEPLABEL   [C05]
-//@   ensures#foreign block.Type != "ssh-rsa" ==> err == age.ErrIncorrectIdentity                                  [C01 C04]
+//@   ensures#foreign block.Type != "ssh-rsa" ==> err == age.ErrIncorrectIdentity                                  [C01 C04 C05]
 //@   ensures#tag (block.Type == "ssh-rsa" && len(block.Args) == 1 && block.Args[0] != fpof(i.sshKey)) ==> err == age.ErrIncorrectIdentity   [C01 C04]
 //@   ensures#nil err != nil ==> fk == nil                                                                         [C01 C04]
 //@   ensures#ok err == nil ==> block.Type == "ssh-rsa" && block.Args[0] == fpof(i.sshKey) && bytes(fk) == oaepdec(id(i.k), bytes(block.Body), OAEPLABEL)   [C01 C04 C05]
@@ -86,7 +86,7 @@ package agessh
 //@   call hkdf.New#1 requires isfunc(arg0, "crypto/sha256.New") && len(arg1) == 0 && bytes(arg2) == keywire(id(i.sshKey)) && bytes(arg3) == EDLABEL   [C05]
 //@   call hkdf.New#2 requires isfunc(arg0, "crypto/sha256.New") && bytes(arg2) == cat(unb64raw(block.Args[1]), bytes(i.ourPublicKey)) && bytes(arg3) == EDLABEL   [C05]
 //@   call aeadDecrypt#1 requires same(arg1, block.Body)                                                           [C05]
-//@   ensures#foreign block.Type != "ssh-ed25519" ==> err == age.ErrIncorrectIdentity                              [C01 C04]
+//@   ensures#foreign block.Type != "ssh-ed25519" ==> err == age.ErrIncorrectIdentity                              [C01 C04 C05]
 //@   ensures#tag (block.Type == "ssh-ed25519" && len(block.Args) == 2 && b64rawok(block.Args[1]) && len(unb64raw(block.Args[1])) == 32 && block.Args[0] != fpof(i.sshKey)) ==> err == age.ErrIncorrectIdentity   [C01 C04]
 //@   ensures#nil err != nil ==> fk == nil                                                                         [C01 C04]
 //@   ensures#frame i.secretKey == old(i.secretKey) && i.ourPublicKey == old(i.ourPublicKey) && i.sshKey == old(i.sshKey)   [C20]
@@ -119,14 +119,14 @@ package agessh
 //@ func (*RSAIdentity).Unwrap(i, stanzas) (fk, err)
 //@   requires i.sshKey != nil && (forall j in 0..len(stanzas) :: stanzas[j] != nil)
 //@   ensures#nil err != nil ==> fk == nil                                                                          [C01 C04]
-//@   ensures#foreign (forall j in 0..len(stanzas) :: stanzas[j].Type != "ssh-rsa") ==> err == age.ErrIncorrectIdentity   [C01 C04]
+//@   ensures#foreign (forall j in 0..len(stanzas) :: stanzas[j].Type != "ssh-rsa") ==> err == age.ErrIncorrectIdentity   [C01 C04 C05]
 //@   ensures#frame i.k == old(i.k) && i.sshKey == old(i.sshKey)                                                    [C20]
 //@   modifies nothing
 
 //@ func (*Ed25519Identity).Unwrap(i, stanzas) (fk, err)
 //@   requires i.sshKey != nil && len(i.secretKey) == 32 && len(i.ourPublicKey) == 32 && (forall j in 0..len(stanzas) :: stanzas[j] != nil)
 //@   ensures#nil err != nil ==> fk == nil                                                                          [C01 C04]
-//@   ensures#foreign (forall j in 0..len(stanzas) :: stanzas[j].Type != "ssh-ed25519") ==> err == age.ErrIncorrectIdentity   [C01 C04]
+//@   ensures#foreign (forall j in 0..len(stanzas) :: stanzas[j].Type != "ssh-ed25519") ==> err == age.ErrIncorrectIdentity   [C01 C04 C05]
 //@   ensures#frame i.secretKey == old(i.secretKey) && i.ourPublicKey == old(i.ourPublicKey) && i.sshKey == old(i.sshKey)   [C20]
 //@   modifies nothing
 
